@@ -56,6 +56,39 @@ where
     }
 }
 
+/// a generated alias must print exactly what the aliased type prints and parse it back to itself
+fn alias_rt<A, I>(cs: &mut Cases, name: &str, inner: &I, wrap: impl Fn(I) -> A, model_op: Option<String>)
+where
+    A: ToPlain + FromPlain + PartialEq + std::fmt::Debug,
+    I: ToPlain + Clone + std::fmt::Debug,
+{
+    let r = guarded(|| {
+        let a = wrap(inner.clone());
+        let t = a.to_plain();
+        let back = A::from_plain(&t).ok().map(|b| b == a);
+        (t, back)
+    });
+    let inner_text = inner.to_plain();
+    let class = format!("gen:{}", name);
+    match r {
+        Err(p) => {
+            cs.push(&class, "noop".into(), "noop".into(), true, format!("{}({:?})", name, inner));
+            cs.fail_last(&format!("gen:{}:panic", name), p);
+        }
+        Ok((t, back)) => {
+            match model_op {
+                Some(op) => cs.push(&class, op, hex(t.as_bytes()), true, format!("{}({:?}).to_plain()", name, inner)),
+                None => cs.push(&class, "noop".into(), "noop".into(), true, format!("{}({:?}).to_plain() = {:?}", name, inner, t)),
+            }
+            if t != inner_text {
+                cs.fail_last(&format!("gen:{}:text", name), format!("{}({:?}).to_plain() = {:?} but the aliased value's PLAIN text is {:?}", name, inner, t, inner_text));
+            } else if back != Some(true) {
+                cs.fail_last(&format!("gen:{}:roundtrip", name), format!("{}::from_plain({:?}) does not return the original {}({:?}): {:?}", name, t, name, inner, back));
+            }
+        }
+    }
+}
+
 fn parse_op<T: FromPlain>(s: &str, show: impl Fn(T) -> String) -> String {
     match T::from_plain(s) {
         Ok(v) => format!("ok {}", show(v)),
@@ -112,6 +145,7 @@ pub fn cases(seed: u64, tier: Tier) -> Cases {
         if !spelled {
             cs.fail_last("f64:spelling", format!("{:?} is written {:?}", d, t));
         }
+        alias_rt(&mut cs, "DblAlias", &d, verifgen::plain::DblAlias, Some(format!("f64 {} {}", cls(d), hex(disp.as_bytes()))));
     }
     for s in ["Infinity", "-Infinity", "NaN", "inf", "-inf", "+inf", "infinity", "INFINITY", "+Infinity", "nan", "-NaN", "NAN", "1e400", "-1e400", "1", "1.5", "-0", "0x1p3", "", " 1", "1,5", "Infinit", "Infinityy", "-infinity", "1e-400", ".5", "5.", "+.5e1", "1e", "e1"] {
         let rust = match s.parse::<f64>() {
@@ -220,6 +254,9 @@ pub fn cases(seed: u64, tier: Tier) -> Cases {
         let op = format!("dt {} {} {} {} {} {} {}", t.year(), t.month(), t.day(), t.hour(), t.minute(), t.second(), t.nanosecond());
         cs.push("dt", op, hex(t.to_plain().as_bytes()), true, format!("{:?}.to_plain()", t));
         roundtrip(&mut cs, "datetime", t, |a, b| a == b);
+        if dtexts.len() < 600 || t.nanosecond() % 1000 != 0 {
+            alias_rt(&mut cs, "DtAlias", t, verifgen::plain::DtAlias, Some(format!("dt {} {} {} {} {} {} {}", t.year(), t.month(), t.day(), t.hour(), t.minute(), t.second(), t.nanosecond())));
+        }
         if dtexts.len() < 600 {
             let s = t.to_plain();
             dtexts.push(s.clone());
@@ -256,6 +293,67 @@ pub fn cases(seed: u64, tier: Tier) -> Cases {
     for s in &dtexts {
         let real = parse_op::<DateTime<Utc>>(s, |t| format!("{} {} {} {} {} {} {}", t.year(), t.month(), t.day(), t.hour(), t.minute(), t.second(), t.nanosecond()));
         cs.push("dtparse", format!("dtparse {}", hex(s.as_bytes())), real, true, format!("DateTime::<Utc>::from_plain({:?})", s));
+    }
+
+    // ---- generated aliases and enums (compiled from gen/ir/verif.json by /repo's generator)
+    {
+        use verifgen::plain as g;
+        let n = if tier == Tier::Quick { 60 } else { 1500 };
+        for i in 0..n {
+            let st: String = ["", "a b", "é/%", "x"][i % 4].to_string() + &format!("{}", rng.below(1000));
+            alias_rt(&mut cs, "StrAlias", &st, g::StrAlias, None);
+            alias_rt(&mut cs, "AliasOfAlias", &g::StrAlias(st.clone()), g::AliasOfAlias, None);
+            let iv = [0, -1, i32::MAX, i32::MIN, rng.range(-100000, 100000) as i32][i % 5];
+            alias_rt(&mut cs, "IntAlias", &iv, g::IntAlias, Some(format!("i32 {}", iv)));
+            let b = i % 2 == 0;
+            alias_rt(&mut cs, "BoolAlias", &b, g::BoolAlias, Some(format!("bool {}", b as u8)));
+            let sl = conjure_object::SafeLong::new([0, 9007199254740991, -9007199254740991, rng.range(-9007199254740991, 9007199254740991)][i % 4]).unwrap();
+            alias_rt(&mut cs, "SafeAlias", &sl, g::SafeAlias, None);
+            let mut ub = [0u8; 16];
+            for x in ub.iter_mut() {
+                *x = rng.next() as u8;
+            }
+            alias_rt(&mut cs, "UuidAlias", &Uuid::from_bytes(ub), g::UuidAlias, Some(format!("uuid {}", hex(&ub))));
+            let bytes: Vec<u8> = (0..rng.below(9)).map(|_| rng.next() as u8).collect();
+            alias_rt(&mut cs, "BinAlias", &Bytes::from(bytes.clone()), g::BinAlias, Some(format!("bin {}", hex(&bytes))));
+            let rid: conjure_object::ResourceIdentifier = format!("ri.s{}.i-{}.t.L_{}.x", i % 7, i % 3, rng.below(100)).parse().unwrap();
+            alias_rt(&mut cs, "RidAlias", &rid, g::RidAlias, None);
+            let tok: conjure_object::BearerToken = format!("tok-{}+/~._=", rng.below(100000)).parse().unwrap();
+            alias_rt(&mut cs, "BearerAlias", &tok, g::BearerAlias, None);
+            // enums: listed and unknown values; the text is the wire name
+            for name in ["RED", "GREEN", "BLUE_2", "PURPLE", "X_9", "A"] {
+                let c = g::Color::from_plain(name);
+                match c {
+                    Ok(c) => {
+                        let t = c.to_plain();
+                        cs.push("gen:Color", "noop".into(), "noop".into(), true, format!("Color::from_plain({:?}).to_plain() = {:?}", name, t));
+                        if t != name || g::Color::from_plain(&t).ok().as_ref() != Some(&c) {
+                            cs.fail_last("gen:Color:roundtrip", format!("Color {:?} prints as {:?} / does not parse back", name, t));
+                        }
+                        alias_rt(&mut cs, "ColorAlias", &c, g::ColorAlias, None);
+                    }
+                    Err(e) => {
+                        cs.push("gen:Color", "noop".into(), "noop".into(), true, format!("Color::from_plain({:?})", name));
+                        cs.fail_last("gen:Color:rejected", format!("Color::from_plain({:?}) rejected a well-formed name: {}", name, e));
+                    }
+                }
+                let x = verifgen::exhaustive::Color::from_plain(name);
+                let listed = matches!(name, "RED" | "GREEN" | "BLUE_2");
+                cs.push("gen:Color:exhaustive", "noop".into(), "noop".into(), true, format!("exhaustive Color::from_plain({:?}) ok={}", name, x.is_ok()));
+                match x {
+                    Ok(c) if listed => {
+                        if c.to_plain() != name {
+                            cs.fail_last("gen:Color:exhaustive-text", format!("exhaustive Color {:?} prints as {:?}", name, c.to_plain()));
+                        }
+                    }
+                    Err(_) if !listed => {}
+                    other => cs.fail_last("gen:Color:exhaustive", format!("exhaustive Color::from_plain({:?}) = {:?}", name, other.map(|c| c.to_plain()).map_err(|e| e.to_string()))),
+                }
+            }
+            if i > 20 && tier == Tier::Quick {
+                continue;
+            }
+        }
     }
     cs
 }
